@@ -22,12 +22,6 @@ CONFIGS = {
                  "grafeo-engine/full,grafeo-engine/vector-index,grafeo-core/tiered-storage"],
         "expect": ["grafeo_common", "grafeo_core", "grafeo_adapters", "grafeo_engine"],
     },
-    "wasm": {
-        # the browser binding, checked on the host (the workspace test build compiles it the same way); only its thin
-        # wrappers over the engine are judged (C07: snapshot export / import through the binding)
-        "args": ["-p", "grafeo-wasm"],
-        "expect": ["grafeo_wasm"],
-    },
     "succinct": {
         "args": ["-p", "grafeo-core", "--features",
                  "grafeo-core/succinct-indexes,grafeo-core/ring-index,grafeo-core/vector-index,grafeo-core/rdf"],
